@@ -221,6 +221,12 @@ def cases(tier, seed):
             for nm in names + OWN:
                 yield {"mesh": {"family": "polyhedron", "name": ["cube", "prism6", "pyramid"][len(nm) % 3], "ops": [["partial", [len(nm), 0.7, "random"]]] if len(nm) % 2 else []},
                        "kind": kind, "dtype": dt, "lead": [3, 2], "program": [nm], "dseed": len(nm)}
+    # every own operation also after a transposition (element dimension first) and after an indexing step
+    for kind in ("n_face", "n_node", "n_edge"):
+        for nm in OWN:
+            for pre in ("transpose_rev", "isel_list", "copy_deep"):
+                yield {"mesh": {"family": "polyhedron", "name": "prism6", "ops": [["partial", [len(nm), 0.7, "random"]]] if len(nm) % 2 else []},
+                       "kind": kind, "dtype": "float64", "lead": [2, 3], "program": [pre, nm], "dseed": len(nm) + len(pre)}
     n = 420 if tier == "quick" else 16000
     allops = names + OWN + OWN  # own operations twice as likely
     for i in range(n):
